@@ -14,6 +14,7 @@ def parseEst (s : String) : List EstAns :=
 def showState : CState → String
   | .resolving => "resolving" | .connecting => "connecting" | .ready => "ready" | .closed => "closed"
   | .bad e => s!"bad:{FramingD.errName e}"
+  | .resolvingLocal r => if r then "resolving-local+remote" else "resolving-local"
 
 def render (s : St) (txBefore : Nat) (r : Res) : String :=
   let res := match r with
@@ -30,7 +31,8 @@ def showTcp (t : TcpOpts.St) : String :=
 
 /-- option bookkeeping across the state transitions of `try_establish` -/
 def track (before after : CState) (t : TcpOpts.St) : TcpOpts.St :=
-  let t1 := if before = .resolving ∧ (after = .connecting ∨ after = .ready) then TcpOpts.beginConnect t else t
+  let wasResolving := before = .resolving ∨ before = .resolvingLocal true ∨ before = .resolvingLocal false
+  let t1 := if wasResolving ∧ (after = .connecting ∨ after = .ready) then TcpOpts.beginConnect t else t
   if after = .ready ∧ before ≠ .ready then TcpOpts.finishConnect t1 else t1
 
 structure D where
@@ -41,7 +43,9 @@ def stepB (s0 : St) (ws : List String) : St × String :=
   let s : St := { s0 with tx := [], rxd := [] }
   match ws with
   | ["N", st] =>
-    let cs := if st == "resolving" then CState.resolving else if st == "connecting" then .connecting else .ready
+    let cs := if st == "resolving" then CState.resolving else if st == "connecting" then .connecting
+              else if st == "resolving-local" then .resolvingLocal false else if st == "resolving-local+remote" then .resolvingLocal true
+              else .ready
     ({ state := cs }, "ok")
   | ["S", m, e, k] =>
     let ks := if k.startsWith "E" then KSend.err (FramingD.errNum (k.drop 1).toString)
@@ -70,7 +74,7 @@ def step (d : D) (ws : List String) : D × String :=
     let (s', o) := stepB d.s ws
     let t0 : TcpOpts.St := {}
     let t := if st == "connecting" then TcpOpts.beginConnect t0
-             else if st == "resolving" then t0
+             else if st == "resolving" || st == "resolving-local" || st == "resolving-local+remote" then t0
              else TcpOpts.accept t0
     ({ s := s', t := t }, o)
   | ["O", name, v] =>
